@@ -545,13 +545,7 @@ func (c *c05Run) remoteClose(x int, src string, rc channeldb.ChannelCommitment,
 // remoteViews probes the peer's current and pending commitments as node x
 // sees them.
 func (c *c05Run) remoteViews(x int, tag string, st *chanstate.OpenChannel) {
-	if st.RemoteCommitment.CommitHeight == 0 {
-		// The height-0 transactions are built by the fixture itself: they pay
-		// 5 BTC to each side (no fee deducted, lease expiry 0) and do not
-		// correspond to the recorded balances.
-	} else {
-		c.remoteClose(x, "remote", st.RemoteCommitment, st.RemoteCurrentRevocation, st, tag)
-	}
+	c.remoteClose(x, "remote", st.RemoteCommitment, st.RemoteCurrentRevocation, st, tag)
 	diff, err := st.RemoteCommitChainTip()
 	if err == nil && diff != nil && st.RemoteNextRevocation != nil {
 		c.remoteClose(x, "pending", diff.Commitment, st.RemoteNextRevocation, st, tag)
@@ -596,28 +590,24 @@ func TestVerifC05(t *testing.T) {
 		for i := 0; i < perKind; i++ {
 			caseID++
 			r := rand.New(rand.NewSource(seed*1_000_033 + int64(ki)*1013 + int64(i)))
-			p, err := c0405NewPair(t, kind, r, false)
+			p, err := c0405NewPair(t, kind, r, false, i%3 == 1)
 			if err != nil {
 				t.Fatalf("create channels %s: %v", kind.Name, err)
 			}
-			a := p.ch[0].channelState
-			fmt.Fprintf(w, "CASE %d prop=c05 type=%s anchors=%d taproot=%d lease=%d tweakless=%d "+
-				"zerofee=%d thaw=%d csvA=%d csvB=%d dustA=%d dustB=%d\n",
-				caseID, kind.Name, c0405B2i(kind.CT.HasAnchors()), c0405B2i(kind.CT.IsTaproot()),
-				c0405B2i(kind.CT.HasLeaseExpiration()), c0405B2i(kind.CT.IsTweakless()),
-				c0405B2i(kind.CT.ZeroHtlcTxFee()), p.thaw,
-				a.LocalChanCfg.CsvDelay, a.RemoteChanCfg.CsvDelay,
-				int64(a.LocalChanCfg.DustLimit), int64(a.RemoteChanCfg.DustLimit))
+			fmt.Fprintf(w, "CASE %d prop=c05 %s\n", caseID, p.header())
 			run := &c05Run{w: w, p: p, negLeft: 60, sample: sample}
-			p.onLocalCommit = func(x int, h uint64, s *LocalForceCloseSummary, fpk int64, err error) {
+			p.onLocalCommit = func(x int, h uint64, s *LocalForceCloseSummary, fpk int64, err error, tag string) {
 				if err != nil || r.Intn(100) < run.sample {
-					run.localClose(x, h, s, fpk, err, "mid")
+					run.localClose(x, h, s, fpk, err, tag)
 				}
 			}
 			p.onRemoteView = func(x int) {
 				if r.Intn(100) < run.sample {
 					run.remoteViews(x, "mid", p.ch[x].channelState)
 				}
+			}
+			if i%3 == 1 {
+				p.smallBalancePrefix()
 			}
 			steps := maxSteps/2 + r.Intn(maxSteps/2+1)
 			n := 0
@@ -661,7 +651,6 @@ func TestVerifC05(t *testing.T) {
 					continue
 				}
 				rst := chans[0]
-				rst.ThawHeight = p.thaw
 				if h > 0 {
 					func() {
 						var (
